@@ -548,6 +548,12 @@ impl<'tcx> M<'tcx> {
                     StatementKind::Assign(b) => {
                         let (pl, rv) = &**b;
                         let dt = self.mono(&fr, pl.ty(body, tcx).ty);
+                        // release reading: the `cfg!(debug_assertions)` literal of a `debug_assert!` expansion is false (the MIR is otherwise
+                        // identical in a release build: configuration pass)
+                        if self.cfg.release && dt.is_bool() && matches!(rv, Rvalue::Use(Operand::Constant(_), ..)) && crate::local::debug_assert_site(st.source_info.span).is_some() {
+                            self.write_place(&fr, pl, V::Int(0))?;
+                            continue;
+                        }
                         let v = self.rvalue(&fr, rv, dt)?;
                         self.write_place(&fr, pl, v)?;
                     }
